@@ -558,20 +558,92 @@ Definition effective (chain : list (list hdecl)) : list hdecl :=
   flat_map (fun i => match visible chain i with Some h => [h] | None => [] end)
            (sort_ids (flat_map (map h_id) chain)).
 
-(** class pool: class id -> (own methods, base class id); class trees refer to it *)
-Inductive ctree := CT (t_id : N) (t_alias : N) (t_ctx : bool) (t_subs : list ctree).
-Fixpoint chain_of (fuel : nat) (p : list (N * (list hdecl * option N))) (id : N) : list (list hdecl) :=
+(** ** Class definitions and their set-up
+    A class = alias, instantiable?, own methods, base class (another class of the pool).
+    The stack structure is built, as in the project, by a sequence of [cls.add(sub)] /
+    [cls.remove(sub)] calls executed once the classes exist.  [lstate] holds the LAYERS
+    dictionary of every class that has one OF ITS OWN (alias -> class id, insertion order);
+    a class without one sees the dictionary of the nearest base class that has one. *)
+Inductive cdef := CDf (d_alias : N) (d_ctx : bool) (d_own : list hdecl) (d_base : option N).
+Inductive sstmt := SAdd (c sub : N) | SRemove (c sub : N).
+
+Fixpoint adel {K V : Type} (eqb : K -> K -> bool) (d : list (K * V)) (k : K) : list (K * V) :=
+  match d with
+  | [] => []
+  | (k', v) :: r => if eqb k' k then r else (k', v) :: adel eqb r k
+  end.
+
+(** [getattr(cls, 'LAYERS')] (None: no class of the MRO has the attribute) *)
+Fixpoint layers_of (fuel : nat) (p : list (N * cdef)) (ls : list (N * list (N * N))) (c : N)
+  : option (list (N * N)) :=
+  match fuel with
+  | O => None
+  | S f =>
+    match aget N.eqb ls c with
+    | Some d => Some d
+    | None => match aget N.eqb p c with
+              | Some (CDf _ _ _ (Some b)) => layers_of f p ls b
+              | _ => None
+              end
+    end
+  end.
+
+Definition alias_of (p : list (N * cdef)) (c : N) : N :=
+  match aget N.eqb p c with Some (CDf a _ _ _) => a | None => 0 end.
+
+(** [add] / [remove] as repaired: the dictionary edited is the class's own one; when the class
+    has none yet it starts from a copy of the inherited one *)
+Definition setup_step (p : list (N * cdef)) (ls : list (N * list (N * N))) (st : sstmt)
+  : list (N * list (N * N)) :=
+  match st with
+  | SAdd c sub =>
+      let d := match layers_of (S (length p)) p ls c with Some d => d | None => [] end in
+      aset N.eqb ls c (aset N.eqb d (alias_of p sub) sub)
+  | SRemove c sub =>
+      match layers_of (S (length p)) p ls c with
+      | None => ls
+      | Some d =>
+          match aget N.eqb d (alias_of p sub) with
+          | None => ls
+          | Some _ => aset N.eqb ls c (adel N.eqb d (alias_of p sub))
+          end
+      end
+  end.
+Definition run_setup (p : list (N * cdef)) (ls0 : list (N * list (N * N))) (prog : list sstmt) :=
+  fold_left (setup_step p) prog ls0.
+
+(** method dictionaries along the MRO of class [id] (single inheritance) *)
+Fixpoint chain_of (fuel : nat) (p : list (N * cdef)) (id : N) : list (list hdecl) :=
   match fuel with
   | O => []
   | S f =>
     match aget N.eqb p id with
     | None => []
-    | Some (own, b) => own :: match b with Some j => chain_of f p j | None => [] end
+    | Some (CDf _ _ own b) => own :: match b with Some j => chain_of f p j | None => [] end
     end
   end.
-Fixpoint elab (p : list (N * (list hdecl * option N))) (t : ctree) : cls :=
-  let 'CT i a x subs := t in
-  Cls a x (effective (chain_of (S (length p)) p i)) (map (elab p) subs).
+Fixpoint mro_ids (fuel : nat) (p : list (N * cdef)) (id : N) : list N :=
+  match fuel with
+  | O => []
+  | S f =>
+    match aget N.eqb p id with
+    | None => [id]
+    | Some (CDf _ _ _ b) => id :: match b with Some j => mro_ids f p j | None => [] end
+    end
+  end.
+
+(** the class tree a stack of root class [c] is built from ([depth] bounds the nesting) *)
+Fixpoint elabc (depth : nat) (p : list (N * cdef)) (ls : list (N * list (N * N))) (c : N) : cls :=
+  match aget N.eqb p c with
+  | None => Cls 0 false [] []
+  | Some (CDf a x _ _) =>
+      Cls a x (effective (chain_of (S (length p)) p c))
+          match depth with
+          | O => []
+          | S d => map (fun e => elabc d p ls (snd e))
+                       match layers_of (S (length p)) p ls c with Some l => l | None => [] end
+          end
+  end.
 
 (** ** Boolean equalities for the correspondence check *)
 Fixpoint list_eqb {A} (eqb : A -> A -> bool) (a b : list A) : bool :=
@@ -635,11 +707,14 @@ Definition check_case (c : cls * list op * list event * list (N * (N * option N)
   Bool.eqb (hyps_hold t ops) hy &&
   (negb hy || inside_model c).
 
-(** cases with class inheritance: class pool + class tree, elaborated by [elab] *)
-Definition pcase := (list (N * (list hdecl * option N)) * ctree * list op * list event
+(** cases: class pool, classes declaring an empty LAYERS of their own, set-up program, root
+    class, then as above *)
+Definition pcase := (list (N * cdef) * list (N * list (N * N)) * list sstmt * N * list op * list event
                      * list (N * (N * option N)) * bool)%type.
+Definition pcase_tree (c : pcase) : cls :=
+  let '(p, ls0, prog, rt, ops, obs, l0, hy) := c in elabc 8 p (run_setup p ls0 prog) rt.
 Definition pcase_elab (c : pcase) :=
-  let '(p, t, ops, obs, l0, hy) := c in (elab p t, ops, obs, l0, hy).
+  let '(p, ls0, prog, rt, ops, obs, l0, hy) := c in (pcase_tree c, ops, obs, l0, hy).
 Definition check_pcase (c : pcase) : bool := check_case (pcase_elab c).
 Definition inside_model_p (c : pcase) : bool := inside_model (pcase_elab c).
 
